@@ -86,7 +86,7 @@ theorem query_step_own_view {st1 st2 st1' st2' : State} {t : Tid} {op : Op} {res
        try (split at h1 <;> rename_i hc <;> simp only [hc, if_true, if_false] at h2)
        all_goals (cases h1; cases h2; simp [hth]))
 
-/-! ### count over a vector vs count over a set -/
+/-! ### the isolated vector is the set union: count = number of distinct facts -/
 theorem dedup_of_nodup : ∀ l : List Tup, l.Nodup → dedup l = l := by
   intro l
   induction l with
@@ -96,14 +96,127 @@ theorem dedup_of_nodup : ∀ l : List Tup, l.Nodup → dedup l = l := by
     have ⟨ha, hl⟩ := List.nodup_cons.mp h
     simp [dedup, ha, ih hl]
 
+theorem mem_dedup : ∀ (l : List Tup) (x : Tup), x ∈ dedup l ↔ x ∈ l := by
+  intro l
+  induction l with
+  | nil => intro x; simp [dedup]
+  | cons a l ih =>
+    intro x
+    unfold dedup
+    split
+    · rename_i hc
+      have hal : a ∈ l := by simpa using hc
+      rw [ih]
+      constructor
+      · intro h; exact List.mem_cons_of_mem _ h
+      · intro h; rcases List.mem_cons.mp h with h | h
+        · subst h; exact hal
+        · exact h
+    · simp [ih]
+
+theorem dedup_nodup : ∀ l : List Tup, (dedup l).Nodup := by
+  intro l
+  induction l with
+  | nil => simp [dedup]
+  | cons a l ih =>
+    unfold dedup
+    split
+    · exact ih
+    · rename_i hc
+      refine List.nodup_cons.mpr ⟨?_, ih⟩
+      rw [mem_dedup]; simpa using hc
+
+theorem mem_foldl_addFresh (p : List Tup) : ∀ (f acc : List Tup) (x : Tup),
+    x ∈ f.foldl (addFresh p) acc ↔ x ∈ acc ∨ (x ∈ f ∧ x ∉ p) := by
+  intro f
+  induction f with
+  | nil => intro acc x; simp
+  | cons a f ih =>
+    intro acc x
+    simp only [List.foldl_cons]
+    rw [ih]
+    unfold addFresh
+    by_cases hc : (p.contains a || acc.contains a) = true
+    · simp only [hc, if_true]
+      simp only [Bool.or_eq_true, List.contains_iff_mem] at hc
+      constructor
+      · rintro (h | ⟨h1, h2⟩)
+        · exact Or.inl h
+        · exact Or.inr ⟨List.mem_cons_of_mem _ h1, h2⟩
+      · rintro (h | ⟨h1, h2⟩)
+        · exact Or.inl h
+        · rcases List.mem_cons.mp h1 with h | h
+          · subst h; rcases hc with hc | hc
+            · exact absurd hc h2
+            · exact Or.inl hc
+          · exact Or.inr ⟨h, h2⟩
+    · simp only [hc, Bool.false_eq_true, if_false]
+      simp only [Bool.or_eq_true, List.contains_iff_mem, not_or] at hc
+      simp only [List.mem_append, List.mem_cons, List.not_mem_nil, or_false]
+      constructor
+      · rintro ((h | h) | ⟨h1, h2⟩)
+        · exact Or.inl h
+        · subst h; exact Or.inr ⟨Or.inl rfl, hc.1⟩
+        · exact Or.inr ⟨Or.inr h1, h2⟩
+      · rintro (h | ⟨h1 | h1, h2⟩)
+        · exact Or.inl (Or.inl h)
+        · exact Or.inl (Or.inr h1)
+        · exact Or.inr ⟨h1, h2⟩
+
+theorem nodup_foldl_addFresh (p : List Tup) : ∀ (f acc : List Tup), acc.Nodup → (f.foldl (addFresh p) acc).Nodup := by
+  intro f
+  induction f with
+  | nil => intro acc h; simpa using h
+  | cons a f ih =>
+    intro acc h
+    simp only [List.foldl_cons]
+    apply ih
+    unfold addFresh
+    split
+    · exact h
+    · rename_i hc
+      simp only [Bool.or_eq_true, List.contains_iff_mem, not_or] at hc
+      refine List.nodup_append.mpr ⟨h, by simp, ?_⟩
+      intro x hx y hy hxy
+      simp at hy; subst hy; subst hxy
+      exact hc.2 hx
+
+theorem mem_isolated (p f : List Tup) (x : Tup) : x ∈ isolated p f ↔ x ∈ p ∨ x ∈ f := by
+  unfold isolated freshOf
+  rw [List.mem_append, mem_foldl_addFresh]
+  simp only [List.not_mem_nil, false_or]
+  constructor
+  · rintro (h | ⟨h, _⟩); exact Or.inl h; exact Or.inr h
+  · rintro (h | h)
+    · exact Or.inl h
+    · by_cases hp : x ∈ p
+      · exact Or.inl hp
+      · exact Or.inr ⟨h, hp⟩
+
+theorem isolated_nodup (p f : List Tup) (hp : p.Nodup) : (isolated p f).Nodup := by
+  unfold isolated freshOf
+  refine List.nodup_append.mpr ⟨hp, nodup_foldl_addFresh p f [] (by simp), ?_⟩
+  intro a ha b hb hab
+  subst hab
+  have := (mem_foldl_addFresh p f [] a).mp hb
+  simp only [List.not_mem_nil, false_or] at this
+  exact this.2 ha
+
 /-- set-semantics answer of the count query -/
 def specCount (rules : Nat) (p f : List Tup) : List Tup :=
   if rules = 0 then [] else if (dedup (p ++ f)).isEmpty then [] else [(dedup (p ++ f)).length]
 
-theorem evalCount_eq_spec (rules : Nat) (p f : List Tup) (hp : p.Nodup) (hf : f.Nodup) (hd : ∀ x ∈ f, x ∉ p) :
+theorem isolated_length (p f : List Tup) (hp : p.Nodup) : (isolated p f).length = (dedup (p ++ f)).length := by
+  apply List.Perm.length_eq
+  apply (List.perm_ext_iff_of_nodup (isolated_nodup p f hp) (dedup_nodup _)).mpr
+  intro x
+  rw [mem_isolated, mem_dedup, List.mem_append]
+
+theorem evalCount_eq_spec (rules : Nat) (p f : List Tup) (hp : p.Nodup) :
     evalCount rules p f = specCount rules p f := by
-  have hn : (p ++ f).Nodup := List.nodup_append.mpr ⟨hp, hf, fun a ha b hb hab => hd b hb (hab ▸ ha)⟩
-  simp [evalCount, specCount, dedup_of_nodup _ hn]
+  have hl := isolated_length p f hp
+  unfold evalCount specCount
+  simp only [List.isEmpty_iff_length_eq_zero, hl]
 
 /-- relations and session fact lists never hold a tuple twice -/
 structure NodupInv (st : State) : Prop where
